@@ -111,6 +111,23 @@ def generate(tier, rng):
         b[rng.randrange(len(b))] = rng.getrandbits(8)
         yield 'cbor.enc 1 t' + hexs(bytes(b))
     yield 'cbor.enc 2 o0 o1'
+    # several items through ONE encoder (state carried between calls): every ordered pair of head-size classes, then longer runs
+    reps = [0, 23, 24, 200, 255, 256, 0x1234, 65535, 65536, 0x00abcdef, 2**24, 2**32 - 1, 2**32, 2**40 + 7, 2**56 - 1, 2**56, 2**64 - 1]
+    for a in reps:
+        for b_ in reps:
+            yield f'cbor.enc 2 u{a} u{b_}'
+    for a in (24, 200, 0x1234):
+        for b_ in (65536, 2**32 + 5, 2**40):
+            yield f'cbor.enc 2 b{hexs(bytes(a))} u{b_}'
+            yield f'cbor.enc 3 u{a} i{-b_} a{b_}'
+    for _ in range(200 if not thorough else 4000):
+        n = rng.randrange(2, 7)
+        toks = []
+        for _ in range(n):
+            k = rng.choice(['u', 'i-', 'a'])
+            v = rng.choice(reps + [rng.getrandbits(rng.randrange(1, 64))])
+            toks.append(k + str(v if k == 'u' else min(v, 2**63) if k == 'i-' else min(v, 2**62)))
+        yield f'cbor.enc {n} ' + ' '.join(toks)
     # maps: all permutations
     maxperm = 6 if thorough else 4
     for n in range(0, maxperm + 1):
